@@ -440,7 +440,8 @@ namespace Pistache::Http
             // This is the first time we are reading the payload
             else
             {
-                message->body_.reserve(contentLength);
+                // Content-Length comes from the peer: only reserve what is buffered
+                message->body_.reserve(std::min<size_t>(contentLength, cursor.remaining()));
                 if (!readBody(contentLength))
                     return State::Again;
             }
@@ -464,7 +465,7 @@ namespace Pistache::Http
                 char* end;
                 const std::string raw = chunkSize.text();
                 auto sz               = std::strtol(raw.c_str(), &end, 16);
-                if (end == raw.c_str() || *end != '\0')
+                if (end == raw.c_str() || *end != '\0' || sz < 0)
                     throw std::runtime_error("Invalid chunk size");
 
                 // CRLF
@@ -478,25 +479,38 @@ namespace Pistache::Http
             }
 
             if (size == 0)
+            {
+                // last-chunk: the CRLF that ends the chunked body belongs to this
+                // message, not to the next one on the connection
+                if (cursor.remaining() < 2)
+                    return Incomplete;
+                if (!cursor.eol())
+                    throw std::runtime_error("Invalid end of chunked body");
+                cursor.advance(2);
                 return Final;
+            }
 
-            message->body_.reserve(size);
             StreamCursor::Token chunkData(cursor);
             const ssize_t available = cursor.remaining();
+            // data bytes of this chunk that are still to be read (never negative)
+            const ssize_t remainingData = size - alreadyAppendedChunkBytes;
 
-            if (available + alreadyAppendedChunkBytes < size + 2)
+            if (available < remainingData + 2)
             {
-                cursor.advance(available);
-                message->body_.append(chunkData.rawText(), available);
-                alreadyAppendedChunkBytes += available;
+                // Take the data that is there, but leave a partial trailing CRLF in
+                // the buffer until both of its bytes have arrived
+                const ssize_t dataNow = std::min(available, remainingData);
+                cursor.advance(dataNow);
+                message->body_.append(chunkData.rawText(), dataNow);
+                alreadyAppendedChunkBytes += dataNow;
                 return Incomplete;
             }
-            cursor.advance(size - alreadyAppendedChunkBytes);
+            cursor.advance(remainingData);
 
             // trailing EOL
             cursor.advance(2);
 
-            message->body_.append(chunkData.rawText(), size - alreadyAppendedChunkBytes);
+            message->body_.append(chunkData.rawText(), remainingData);
 
             return Complete;
         }
